@@ -1,3 +1,4 @@
+import Firebolt.Properties.TransBase
 import Firebolt.Properties.C10
 import Firebolt.Generated.Source
 import Firebolt.Expected.Source
@@ -88,6 +89,36 @@ theorem source_exNewMessage : GeneratedSrc.exNewMessage = ExpectedSrc.exNewMessa
 
 /-! ### influence closure: the pinned functions, and every function of the repository that writes a struct field or package
 variable they read, are unchanged (digests regenerated from /repo on every run; a difference names the functions) -/
+/-! ### The code itself, translated (`Generated/Trans.lean`, rewritten from /repo on every run by extractor/translate.go)
+
+The `translated_*` theorems are about MiniGo terms the translator produced from the current Go source: for every
+environment the translated fragment does what the hand-written model function says.  They are semantic obligations —
+a rewrite that preserves the behaviour keeps them provable, a changed comparison, bound or argument does not. -/
+section Translated
+open Firebolt.MiniGo Firebolt.TransBase
+
+/-- produceMessage, translated: the wire message is built from the very message and acknowledgement flag handed in (and the
+current time); if it cannot be encoded an error is returned and nothing is produced; otherwise exactly one record is
+produced whose value is that encoding and whose key is `uniqueKey(msg)` -/
+theorem translated_produceMessage (σ : Env) :
+    let r := run Trans.msProduceMessage σ
+    r.stuck = false ∧
+    r.calls.head? = some ("new wireMessage {Message,Updated,Acknowledged}", [σ "msg", σ "time.Now()", σ "ack"]) ∧
+    ("json.Marshal", [σ "new wireMessage {Message,Updated,Acknowledged}#0"]) ∈ r.calls ∧
+    (σ "json.Marshal#1" ≠ 0 → r.ret = some [σ "fmt.Errorf#0"] ∧ ∀ a, ("s.producer.Produce", a) ∉ r.calls) ∧
+    (σ "json.Marshal#1" = 0 → r.ret = some [0] ∧
+      ("new kafka.Message {TopicPartition,Key,Value}",
+        [σ "kafka.TopicPartition{Topic: &s.topic, Partition: kafka.PartitionAny}", σ "[]byte(uniqueKey(msg))", σ "json.Marshal#0"]) ∈ r.calls ∧
+      (r.calls.filter (fun c => c.1 == "s.producer.Produce")) = [("s.producer.Produce", [σ "new kafka.Message {TopicPartition,Key,Value}#0"])]) := by
+  by_cases h : σ "json.Marshal#1" = 0 <;> minigo_simp [Trans.msProduceMessage, h]
+
+/-- Send and Ack differ in nothing but the acknowledgement flag: same message, same path, same key -/
+theorem translated_send_ack (σ : Env) :
+    obs Trans.msSend σ = ⟨[("s.produceMessage", [σ "msg", 0])], some [σ "s.produceMessage#0"], false⟩ ∧
+    obs Trans.msAck σ = ⟨[("s.produceMessage", [σ "msg", 1])], some [σ "s.produceMessage#0"], false⟩ := by
+  minigo_simp [Trans.msSend, Trans.msAck]
+end Translated
+
 theorem closure_unchanged : GeneratedClo.C12 = ExpectedClo.C12 := by rfl
 
 end Firebolt.C12
